@@ -118,6 +118,11 @@ static void roundtrip_inst(OPNIFile &f, int version, en::CaseOut &o) {
     std::string why; WOPNInstrument e; expect_ins(e, f.inst, version, false, NULL);
     if(l.version != version || l.is_drum != f.is_drum) { o.fail("C15/inst-roundtrip/header", "version or is_drum differs"); return; }
     if(!ins_eq(l.inst, e, why)) { o.fail("C15/inst-roundtrip/instrument", "version " + std::to_string(version) + ": " + why); return; }
+    // the loaded value is a function of the file alone: a target structure that held something else before (every byte set) must come out the same
+    { uint8_t *blk2 = (uint8_t *)malloc(need); memcpy(blk2, g.p(), need); OPNIFile l2; memset(&l2, 0xFF, sizeof l2); rc = WOPN_LoadInstFromMem(&l2, blk2, need); free(blk2);
+      if(rc != 0) { o.fail("C15/inst-load-of-saved-failed", "error " + std::to_string(rc) + " with a previously used target structure"); return; }
+      if(l2.version != version || l2.is_drum != f.is_drum) { o.fail("C15/inst-roundtrip/header", "version or is_drum differs when the target structure was used before"); return; }
+      if(!ins_eq(l2.inst, e, why)) { o.fail("C15/inst-roundtrip/instrument", "version " + std::to_string(version) + ", target structure used before (all bytes FF): " + why); return; } }
     o.nontrivial = true;
 }
 
@@ -325,7 +330,7 @@ int main(int argc, char **argv) {
         o.tags |= 1ull << T_ACCEPTED; o.nontrivial = true;
         size_t need = WOPN_CalculateInstFileSize(&l1, l1.version); Guarded g(need);
         if(WOPN_SaveInstToMem(&l1, g.p(), need, l1.version) != 0 || !g.intact()) { o.fail("C15/accepted-inst/save-failed", "save of a loaded instrument failed"); return; }
-        OPNIFile l2; memset(&l2, 0, sizeof l2); uint8_t *b2 = (uint8_t *)malloc(need); memcpy(b2, g.p(), need); rc = WOPN_LoadInstFromMem(&l2, b2, need); free(b2);
+        OPNIFile l2; memset(&l2, 0xFF, sizeof l2); uint8_t *b2 = (uint8_t *)malloc(need); memcpy(b2, g.p(), need); rc = WOPN_LoadInstFromMem(&l2, b2, need); free(b2);   // (a target that was used before: every byte set)
         std::string why;
         if(rc != 0) { o.fail("C15/accepted-inst/reload-failed", std::to_string(rc)); return; }
         if(l1.version != l2.version || l1.is_drum != l2.is_drum || !ins_eq(l1.inst, l2.inst, why)) o.fail("C15/accepted-inst/not-identity", "loaded version " + std::to_string(l1.version) + " reloaded version " + std::to_string(l2.version) + " " + why); };
